@@ -16,7 +16,7 @@ func init() {
 	register(&Check{
 		ID:    "C06",
 		Level: "model_checking",
-		Rule: "explicit enumeration of the file-system state transition of RunFiles: 21 sources (three of them with two or three commands; replacement longer / equal / shorter / empty / absent for some or all matches / multi-byte UTF-8, zero matches, match at offset 0 and at the end, adjacent matches covering the file, skip/take/last windows, anchors, find) x every file content over {a,b,\\n} up to length 4 plus 4095/4096/4097/8193-byte files with the motif at the start, across the buffer boundary and at the end x mode {NOTHING, NEW, OVERWRITE} x pre-state {no .vored, stale longer .vored, stale shorter .vored, no .vored with the directory itself as the argument} x {one file, two files}; " +
+		Rule: "explicit enumeration of the file-system state transition of RunFiles: 23 sources (three of them with two or three commands; two whose length differences can cancel out; replacement longer / equal / shorter / empty / absent for some or all matches / multi-byte UTF-8, zero matches, match at offset 0 and at the end, adjacent matches covering the file, skip/take/last windows, anchors, find) x every file content over {a,b,\\n} up to length 4 plus 4095/4096/4097/8193-byte files with the motif at the start, across the buffer boundary and at the end x mode {NOTHING, NEW, OVERWRITE} x pre-state {no .vored, stale longer .vored, stale shorter .vored, no .vored with the directory itself as the argument - its second entry then being a symbolic link to a file elsewhere} x {one file, two files}; " +
 			"state = complete directory snapshot (names and bytes); the post-state must equal the expected directory: NOTHING identical, NEW original untouched + <f>.vored == splice(input, matches, replacements) and nothing else, OVERWRITE <f> == splice and nothing else, find identical in every mode; splice is computed from Run(string); states = distinct (pre,post) directory snapshots, transitions = RunFiles calls",
 		Assume: []string{"the operating system performs the writes; no crash points are explored (no property asks for it)"},
 		Budget: map[string]int{"quick": 150, "thorough": 1200},
@@ -38,6 +38,8 @@ var c06Commands = []string{
 	"replace all 'a' or ('b' = d) with d", "replace all 'a' with nope",
 	// replacement text longer in bytes than in characters
 	"replace all 'a' with '\xc3\xa9'", "replace all ('b' = x) with x '\xe2\x82\xac' x",
+	// matches of different lengths replaced by one text: the differences may cancel out
+	"replace all at least 1 'a' with 'xx'", "replace all 'aa' or ('b' = x) with x x",
 	// several commands: a later command works on what an earlier OVERWRITE left
 	"replace all 'a' with 'bb'\nreplace all 'b' with 'c'", "find all 'a'\nreplace all 'a' with ''\nfind all 'b'", "replace all 'ab' with 'b'\nreplace all 'b' with 'ab' 'a'",
 }
@@ -111,6 +113,7 @@ func bigContents() []string {
 func runC06(c *Ctx) {
 	small := texts("ab\n", c.Pick(3, 4))
 	contents := append(append([]string{}, small...), bigContents()...)
+	contents = append(contents, "abaaa", "aaaba", "a-aaa-b", "aabb", "bbaa\nab", "aab aab")
 	modes := []engine.ReplaceMode{engine.NOTHING, engine.NEW, engine.OVERWRITE}
 	// "dir-arg": no stale output, and the directory that holds the files is the argument instead of the files
 	pre := []string{"none", "stale-longer", "stale-shorter", "dir-arg"}
@@ -192,7 +195,15 @@ func c06Case(c *Ctx, v *libvore.Vore, cmd, content, want string, isReplace bool,
 	os.WriteFile(filepath.Join(dir, "f"), []byte(content), 0o644)
 	if two {
 		files = append(files, "g")
-		os.WriteFile(filepath.Join(dir, "g"), []byte("ba"+content), 0o644)
+		if pre == "dir-arg" {
+			// the second entry of the directory is a symbolic link to a file that lives elsewhere
+			outside, _ := os.MkdirTemp("", "vmc-c06o-")
+			defer os.RemoveAll(outside)
+			os.WriteFile(filepath.Join(outside, "target"), []byte("ba"+content), 0o644)
+			os.Symlink(filepath.Join(outside, "target"), filepath.Join(dir, "g"))
+		} else {
+			os.WriteFile(filepath.Join(dir, "g"), []byte("ba"+content), 0o644)
+		}
 	}
 	switch pre {
 	case "stale-longer":
